@@ -27,6 +27,11 @@ add("utils/encoding/utf16","utf16","DecodeUTF16LE","DecodeUTF16LE(data)",["0..7"
 add("network/ldap","ldap","ParseSID","ParseSIDFromBytes(data)",["0..13","28","72"],["0..76"],lossy_fmt=True)
 
 
+IL="network/smb/smb_v10/informationlevels"
+for ty in "SMB_FIND_FILE_BOTH_DIRECTORY_INFO SMB_FIND_FILE_DIRECTORY_INFO SMB_FIND_FILE_FULL_DIRECTORY_INFO SMB_FIND_FILE_NAMES_INFO SMB_INFO_ALLOCATION SMB_INFO_IS_NAME_VALID SMB_INFO_QUERY_ALL_EAS SMB_INFO_QUERY_EAS_FROM_LIST SMB_INFO_QUERY_EA_SIZE SMB_INFO_SET_EAS SMB_INFO_STANDARD SMB_INFO_VOLUME SMB_QUERY_FILE_ALL_INFO SMB_QUERY_FILE_ALT_NAME_INFO SMB_QUERY_FILE_BASIC_INFO SMB_QUERY_FILE_COMRESSION_INFO SMB_QUERY_FILE_EA_INFO SMB_QUERY_FILE_NAME_INFO SMB_QUERY_FILE_STANDARD_INFO SMB_QUERY_FILE_STREAM_INFO SMB_QUERY_FS_ATTRIBUTE_INFO SMB_QUERY_FS_DEVICE_INFO SMB_QUERY_FS_SIZE_INFO SMB_QUERY_FS_VOLUME_INFO SMB_SET_FILE_ALLOCATION_INFO SMB_SET_FILE_BASIC_INFO SMB_SET_FILE_DISPOSITION_INFO SMB_SET_FILE_END_OF_FILE_INFO".split():
+    add(IL,"informationlevels",ty,f"var v {ty}\n\tv.Unmarshal(data)",["0..10","24","40"],["0..100"],lossy_fmt=True)
+add(M,"message","Message","if len(data) > 4 {\n\t\tvAssume(int(data[4]) == vParam(\"cmd\"))\n\t}\n\tm := NewMessage()\n\tm.Unmarshal(data)",["0","31..38"],["0","31..44"],lossy_fmt=True,grid_extra={"cmd":["0","4","37","47","114","115","117","255"]})
+
 # text-input entries use vString
 def addS(pkg, pkgname, name, body, q, t, **extra):
     E.append(dict(pkg=pkg, pkgname=pkgname, name=name, body=body, q=q, t=t, imports=(), extra=extra, text=True))
